@@ -234,6 +234,16 @@ def strata(tier):
             for mode in ("shared", None, "looked-at", "deepcopy"):
                 yield {"rule": {"path": PC.mkpath(rpath), "cond": cond, "cast": None}, "doc": sdoc, "via": "dsl", "pos": "list-item", "pcls": "modifiers",
                        "_objmode": mode}
+    # a data path as the value of an item of items_contain (variable keywords), over mappings that do / do not hold the value
+    vdoc = {"ref": 7, "m": {"a": 7, "b": 0}, "n": {"a": 8, "b": 0}, "o": {"b": None}, "lst": [1, 2], "path": 7}
+    Pr = {"$path": PC.mkpath([{"p": "prim", "v": "ref"}])}
+    Pn = {"$path": PC.mkpath([{"p": "prim", "v": "nope"}])}
+    Pl = {"$path": dict(PC.mkpath([{"p": "prim", "v": "lst"}]), datum="length")}
+    for kw in ({"a": Pr}, {"a": Pr, "b": 0}, {"b": Pn}, {"a": Pr, "b": Pn}, {"b": Pl, "a": 8}, {"path": Pr, "b": 0}):
+        cond = {"c": "leaf", "kind": "value", "pre": None, "fn": "items_contain", "args": [], "kwargs": kw}
+        for rpath in ([{"p": "prim", "v": "m"}], [{"p": "map"}], [{"p": "prim", "v": "n"}], [{"p": "prim", "v": "o"}]):
+            for via in ("dsl", "spec"):
+                yield {"rule": {"path": PC.mkpath(rpath), "cond": cond, "cast": None}, "doc": vdoc, "via": via, "pos": "varkw-value", "pcls": "concrete"}
     # escaped literal mappings
     for j, lit in enumerate([{"kind": "ref", "path": ["a", "b"]}, {"a": 1, "Path.length": 2, "z": 0}, {"path": ["a"], "kind": "ref"},
                              {"k": 0, "path": ["a"], "PATH.first": 3}, {"kind": "r%d" % 1, "path": 3}, {"x": [1], "path": {"path": 1}},
